@@ -270,7 +270,7 @@ func writeReplay(path, prop, rel, fn string, v Violation, o *Opts) {
 	b, _ := json.MarshalIndent(map[string]interface{}{
 		"property": prop, "pkg": rel, "harness": fn, "kind": v.Kind, "msg": v.Msg, "region": v.Region,
 		"vars": v.Vars, "ints": v.Ints, "choices": v.Choices, "decision": v.Decision, "thorough": o.Thorough,
-		"crash": v.Crash, "crash_at": v.CrashAt, "outs": v.Outs, "threads": v.Threads,
+		"crash": v.Crash, "crash_at": v.CrashAt, "crash_kind": v.CrashKind, "outs": v.Outs, "threads": v.Threads,
 		"preempt": o.Preempt, "maxzeros": o.MaxZeros,
 	}, "", " ")
 	os.WriteFile(path, b, 0644)
